@@ -87,6 +87,11 @@ def const_eval(expr: ast.AST, env: dict[str, object]) -> object:
         b = const_eval(expr.comparators[0], env)
         op = expr.ops[0]
         if isinstance(op, (ast.Is, ast.IsNot)):
+            # an EMPTY value ({} / [] / ""): falsy but not None
+            if (a is EMPTY and b is None) or (b is EMPTY and a is None):
+                return isinstance(op, ast.IsNot)
+            if a is EMPTY or b is EMPTY:
+                return UNKNOWN
             if a is UNKNOWN or b is UNKNOWN:
                 # TRUTHY values are not None
                 if b is None and a in (TRUTHY, ) or a is None and b in (TRUTHY, ):
@@ -98,8 +103,8 @@ def const_eval(expr: ast.AST, env: dict[str, object]) -> object:
                 return UNKNOWN
             r = a is b if not isinstance(a, (int, str)) else a == b
             return r if isinstance(op, ast.Is) else not r
-        if a is UNKNOWN or b is UNKNOWN or a in (TRUTHY, FALSY) or b in (
-                TRUTHY, FALSY):
+        if a is UNKNOWN or b is UNKNOWN or a in (TRUTHY, FALSY, EMPTY) or \
+                b in (TRUTHY, FALSY, EMPTY):
             return UNKNOWN
         try:
             if isinstance(op, ast.Eq):
@@ -124,14 +129,14 @@ def const_eval(expr: ast.AST, env: dict[str, object]) -> object:
             expr.func, ast.Name) and expr.func.id == "isinstance" and len(
                 expr.args) == 2:
         v = const_eval(expr.args[0], env)
-        if v is not UNKNOWN and v not in (TRUTHY, FALSY):
+        if v is not UNKNOWN and v not in (TRUTHY, FALSY, EMPTY):
             names = {"int": int, "str": str, "bool": bool, "float": float}
             t = expr.args[1]
             if isinstance(t, ast.Name) and t.id in names:
                 return isinstance(v, names[t.id])
     if isinstance(expr, (ast.List, ast.Tuple)):
         vals = [const_eval(e, env) for e in expr.elts]
-        if all(v is not UNKNOWN and v not in (TRUTHY, FALSY) for v in vals):
+        if all(v is not UNKNOWN and v not in (TRUTHY, FALSY, EMPTY) for v in vals):
             return vals if isinstance(expr, ast.List) else tuple(vals)
     return UNKNOWN
 
@@ -147,6 +152,7 @@ class _Marker:
 
 TRUTHY = _Marker("TRUTHY")
 FALSY = _Marker("FALSY")
+EMPTY = _Marker("EMPTY")   # an empty container / string: falsy, not None
 
 
 def truth(expr: ast.AST, env: dict[str, object]) -> bool | None:
@@ -155,7 +161,7 @@ def truth(expr: ast.AST, env: dict[str, object]) -> bool | None:
         return None
     if v is TRUTHY:
         return True
-    if v is FALSY:
+    if v is FALSY or v is EMPTY:
         return False
     try:
         return bool(v)
